@@ -106,6 +106,37 @@ def run(ctx):
         res.case(("recorded", fn))
     ops2.append("digest r full")
     impl2.append(chain.state_digest(real))
+    # the same recorded blocks when a competing block for height 1 was stored first (as a download with validation
+    # skipped stores it): the real chain is a side branch until it is the higher one, and must still validate
+    if blocks and blocks[0][2].height == 1:
+        from skepticoin.datatypes import Transaction, Input, Output, OutputReference
+        from skepticoin.signing import SECP256k1PublicKey, CoinbaseData
+        cb = Transaction([Input(OutputReference(b"\x00" * 32, 0), CoinbaseData(1, b"competitor"))],
+                         [Output(consensus.get_block_subsidy(1), SECP256k1PublicKey(bytes(rng.getrandbits(8) for _ in range(64))))])
+        r1 = blocks[0][2]
+        sm = BlockSummary(1, g.hash(), consensus.calc_merkle_root_hash([cb]), r1.timestamp, r1.target, 7)
+        comp = Block(BlockHeader(sm, PowEvidence(b"\x01" * 32, b"\x02" * 32, b"\x03" * 32)), [cb])
+        side = CoinState.empty().add_block_no_validation(g).add_block_no_validation(comp)
+        ops2 += ["new q", "addnv q q " + hx(genesis_block_data), "addnv q q " + hx(comp.serialize())]
+        impl2 += ["ok"] * 3
+        for fn, raw, b in blocks:
+            try:
+                side = side.add_block(b, b.timestamp)
+                v = "ok"
+            except Exception as e:
+                v = "rej"
+                res.violations.append({"kind": "recorded block of the real network fails full validation (real scrypt) when a "
+                                               "competing block for height 1 was stored first", "file": fn,
+                                       "competitor": comp.serialize().hex(), "error": repr(e)[:200]})
+            ops2.append("add q q %s %d" % (hx(raw), b.timestamp))
+            impl2.append(v)
+            res.case(("recorded-after-competitor", fn))
+        if len(blocks) > 1 and side.current_chain_hash != blocks[-1][2].hash() and not any(
+                "competing block" in v_.get("kind", "") for v_ in res.violations):
+            res.violations.append({"kind": "after the recorded blocks the head is not the last recorded block although its chain "
+                                           "is the higher one", "competitor": comp.serialize().hex()})
+        ops2.append("digest q full")
+        impl2.append(chain.state_digest(side))
     res.count("recorded_blocks", len(blocks))
     res.sample({"recorded": [fn for fn, _, _ in blocks][:2], "validated_with": "real scrypt, horizon disabled"})
     chain.unpatch()
